@@ -32,6 +32,26 @@ CHECKS = {
     text="Exploration: every pattern up to length 4 (quick) / 5 (thorough) over the metacharacter alphabet, with and without backslash escaping, against every string up to length 3, in the six configurations the shell uses (whole match with/without leading-period rule, the four trims); plus random longer patterns with ranges, classes, collating symbols and equivalence classes over all printable ASCII and some non-ASCII characters. Compared with a reference matcher written from the POSIX text. Bounded search, not a proof.",
     note="Trusted: the harness' reference parser/matcher for the POSIX locale. Patterns whose meaning POSIX leaves undefined are skipped (counted in the evidence).",
     design="4/C04"),
+ "C12": dict(
+    technique="property-based testing / stateful: exhaustive enumeration of valid job-event histories (automaton unranking) + proptest random histories against a shadow model and the documented invariants, checked through the public JobList API after every step",
+    text="Exploration: every valid history up to length 5-6 (quick) / 6-7 (thorough) over 3-4 pids and the full operation alphabet, plus random histories of length <=60; after every transition the current/previous-job invariants, pid index, index stability and 21 job-ID queries are checked against a shadow map. Bounded exploration of the reachable state space (distinct observable states are counted), not an inductive proof.",
+    note="Trusted: the shadow model and invariant list in harness/src/props/c12.rs (only what the doc comments and the property state). Stopped-to-stopped updates are not judged (doc ambiguous).",
+    design="4/C12"),
+ "C13": dict(
+    technique="property-based testing with an owned scheduler: proptest race-free programs x (depth-first enumeration of scheduler choice vectors + seeded schedules) with preemption hooks, compared with a reference model; process table inspected at exit",
+    text="Exploration: random race-free programs (pipelines, async lists, wait/wait PID, subshells, command substitutions, pipefail), each run under FIFO, a DFS over the scheduler's choice vectors up to a budget and seeded random schedules, with preemption points before every wait/read/write; per-process traces, status, stderr, sink data must equal the reference model under every schedule, no deadlock, every child terminated and reaped. Bounded; liveness only as 'no explored schedule deadlocks'.",
+    note="Trusted: harness scheduler (vsys.rs), the verif-hooks preemption points in yash-env, the small reference model in c13.rs. Interleavings finer than system-call boundaries and the real OS scheduler are not explored.",
+    design="4/C13"),
+ "C14": dict(
+    technique="property-based testing with an owned scheduler: payload sizes around every pipe-buffer boundary x shapes x schedules (grid + proptest scripted schedules + DFS on small transfers); round-trip oracle on the bytes",
+    text="Exploration: a grid of 19 boundary sizes x 4 trailing-newline counts x 8 shapes x 40 (quick) / 400 (thorough) schedules, random sizes up to 4x pipe capacity with shrinkable scripted schedules, and a depth-first enumeration of schedules for four small transfers; received bytes / $( ) value / here-document body must equal what was produced. Bounded.",
+    note="Trusted: probe built-ins gen/cat/sink, harness scheduler, preemption hooks. Only the simulated pipe implementation (PIPE_BUF 512, PIPE_SIZE 1024) is exercised.",
+    design="4/C14"),
+ "C20": dict(
+    technique="property-based testing: exhaustive argument-vector enumeration + proptest vectors against a reference option parser (API half) and combinatorial equivalent-spelling groups for the shell command line (metamorphic); built-in catalogue half pending",
+    text="Exploration: every vector of <=4 (quick) / <=5 (thorough) tokens from a 23-token alphabet x 9 option specifications x 8 modes compared with a reference parser of the utility syntax guidelines (options, arguments, operands, error class and location), random longer vectors, and ~10k groups of equivalent spellings of the shell's own command line that must parse equal (plus malformed ones that must be rejected).",
+    note="Trusted: the reference parser in harness/src/props/c20a.rs. The per-built-in spelling catalogue (O-b) is not yet built; this check covers the generic parser every built-in uses and the shell command line.",
+    design="4/C20"),
 }
 
 PENDING_REASON = "check not built yet in this round of work (planned in DESIGN.md section 4); nothing is claimed for it"
